@@ -1,15 +1,19 @@
 (* C04 -- Running a parser is total, terminating and pure.
    Property theorems only; proofs live in Lemmas/LoopLaws.v (and Lemmas/Reach.v).
-   PARTIAL.  What Rocq decides here is the termination of the repetition loops and the ledger
-   bound it rests on.  Not theorems: (a) termination of the adjacent-group retry loop (fuelled in
-   the model; fuel exhaustion is a distinct outcome the differential run would show as FUEL),
-   (b) absence of panics (the model has explicit panic outcomes at every slicing / subtraction /
-   unreachable!() site and the differential run compares them; one class is a known finding),
-   (c) purity -- Gallina functions are pure by construction; the implementation is re-run on the
-   same OptionParser and after other operations (driver modes `twice`, `history`). *)
+   PARTIAL.  What Rocq decides here: for EVERY definition built without `adjacent` (every
+   combinator of the model: flags, arguments, positionals, `any`, subcommands, construct!,
+   alternatives, optional/many/some/collect/count/last, fallback, guard, parse, map, hide, usage,
+   group_help, pure, fail, boxed -- arbitrarily nested), every vector and every environment, a run
+   ends in a value, a help/version document or an error message: no panic outcome, no fuel
+   exhaustion (C04_total_without_adjacent); and the ledger bound / loop termination it rests on.
+   Not theorems: (a) adjacent groups and adjacent commands (the retry loop is fuelled in the model;
+   its panic sites are explicit outcomes the differential run compares; one class is a known
+   finding), (b) the panic sites of rendering and completion (compared per run), (c) purity --
+   Gallina functions are pure by construction; the implementation is re-run on the same
+   OptionParser and after other operations (driver modes `twice`, `history`). *)
 From Coq Require Import List Arith.
-From BpafModel Require Import Conv.
-From BpafLemmas Require Import Tac EvalEq Reach LoopLaws AbsSim AbsTotal ConvRefine ConvTotal.
+From BpafModel Require Import Conv Wf.
+From BpafLemmas Require Import Tac EvalEq Reach LoopLaws TotalLaws AbsSim AbsTotal ConvRefine ConvTotal.
 Import ListNotations.
 
 (* `remaining <= number of items` (and the item-state vector has the length of the item list)
@@ -68,3 +72,31 @@ Theorem C04_flat_level_total :
   normal_outcome (run_inner feat env (compile_options (Level items tail)) None argv).
 Proof. exact flat_run_total. Qed.
 Print Assumptions C04_flat_level_total.
+
+(* EVERY definition without `adjacent` whose named items have a name or a variable and whose option
+   levels pass check_invariants (`oko`, decidable, evaluated on every generated definition), on
+   EVERY argument vector and environment: the outcome is a value, a document or an error message *)
+Theorem C04_total_without_adjacent :
+  forall feat env o name argv, oko o = true ->
+  normal_outcome (run_inner feat env o name argv).
+Proof. exact run_total. Qed.
+Print Assumptions C04_total_without_adjacent.
+
+(* the same for the evaluation of any sub-parser from any well-formed state (ledger bounded, scope
+   inside the ledger): states only move by legal steps, which keep them well-formed *)
+Theorem C04_eval_total_without_adjacent :
+  forall env p s, okp p = true -> G s ->
+  nf (fst (eval env p s)) /\ G (snd (eval env p s)).
+Proof.
+  intros env p s Hp Hg. split; [exact (proj1 (eval_total_all env) p Hp s Hg)|exact (proj1 (eval_keepsG env p s Hg))].
+Qed.
+Print Assumptions C04_eval_total_without_adjacent.
+
+(* the premises are met: a definition with a subcommand, an alternative, repetition and a guard *)
+Example C04_example_oko :
+  oko (Options (PCon (PCons (PMany (PArg (mkNamed [110%N] [] [] None) [78%N] TyString false) false)
+                      (PCons (POr (PFlag (mkNamed [97%N] [] [] None) (VBool true) None)
+                                  (PCmd [99%N] [] [] None false
+                                        (Options (PGuard (PPos [80%N] TyString Unrestricted None) (fun _ => true) []) default_info)))
+                             PNil))) default_info) = true.
+Proof. vm_compute. reflexivity. Qed.
